@@ -368,6 +368,14 @@ def deep_expr_src(kind, n, leaf):
 
 
 def deep_expr_json(kind, n, leaf):
+    """a marker node: the check renders it as a call of a Coq builder (a literal term thousands of levels deep is slow to
+    type-check); ["@deep", [kind, how many wrappers, leaf]]"""
+    if kind == 'parens':
+        return leaf
+    return ['@deep', [kind, n if kind == 'unary' else n - 1, leaf]]
+
+
+def _deep_expr_json_literal(kind, n, leaf):
     e = leaf
     if kind in ('left-sum', 'right-sum'):
         for _ in range(n - 1):
@@ -405,8 +413,6 @@ def gen_recursion(rng, n):
         if where == 0:      # a label: nothing can be folded, the tree keeps its depth
             src = deep_expr_src(kind, size, 'x')
             pre = [st_fj(0, deep_expr_json(kind, size, 'x'), 1), {'t': 'Label', 'name': 'x', 'pos': dict(POS, line=2)}]
-            if kind == 'parens':
-                pre = [st_fj(0, 'x', 1), pre[1]]
             out.append(case('recursion', f';{src}\nx:\n', f'expression depth {size} ({kind}) over a label', pre=pre))
         elif where == 1:    # literals: folded by the parser as it goes, no deep tree is ever built
             src = deep_expr_src(kind, size, '1')
@@ -459,7 +465,9 @@ def gen_collisions(rng, n):
 
 def gen_huge(rng, n, mem_mb):
     frags = [
-        ('pad 2^70 ops', ';\npad 1<<70', True), ('pad 2^40 ops', ';\npad 1<<40', True), ('pad 2^70 at address 0 (nothing to pad)', 'pad 1<<70\n;', False),
+        ('pad 2^70 ops (beyond every address space)', ';\npad 1<<70', False),
+        ('pad 2^50 ops inside the 64-bit address space', ';\npad 1<<50', True, 64), ('pad 2^40 ops inside the 64-bit address space', ';\npad 1<<40', True, 64),
+        ('pad 2^40 ops after a macro', 'def m {\n;\n}\nm\npad 1<<40', True, 64), ('pad by a string literal', ';\npad "abcdef"', True, 64), ('pad 2^70 at address 0 (nothing to pad)', 'pad 1<<70\n;', False),
         ('rep 2^40 times', 'def m {\n;\n}\nrep(1<<40, i) m', True), ('rep 2^70 times of an empty macro', 'def m {\n\n}\n;\nrep(1<<70, i) m', True),
         ('reserve 2^70 bits', ';\nreserve 1<<70', False), ('shift by 2^40 (parser)', ';1<<(1<<40)', True), ('shift by 2^70 (parser)', ';1<<(1<<70)', False),
         ('shift by 2^40 (labels)', ';x<<(1<<40)\nx:', True), ('shift by 2^70 (labels)', ';x<<(1<<70)\nx:', False),
@@ -471,7 +479,7 @@ def gen_huge(rng, n, mem_mb):
         ('huge constant shown in a collision message', 'x = 1<<20000\nx:', False), ('huge constant in a parameter-collision message', 'x = 1<<20000\ndef m x {\n;x\n}\nm 1', False),
         ('huge number in an unknown-label message', ';x+(1<<20000)', False), ('huge number in a bad-math message', ';(x+(1<<20000))/0\nx:', False),
         ('huge number in a bad-math message (parameter)', 'def m a {\n;((1<<20000)+a)/(a-a)\n}\nm 3', False),
-        ('huge number as a label swap', 'def m a {\na:\n;\n}\nm 1<<20000', False), ('huge negative pad', ';\npad 0-(1<<20000)', False),
+        ('huge number as a label swap', 'def m a {\na:\n;\n}\nm 1<<20000', False), ('huge negative pad', ';\npad 0-(1<<20000)', False), ('huge pad', ';\npad 1<<20000', False),
         ('huge unaligned segment', ';\nsegment (1<<20000)+1', False), ('huge unaligned reserve', ';\nreserve (1<<20000)+1', False),
         ('huge aligned segment', ';\nsegment 1<<20000\n;', False), ('huge aligned reserve', ';\nreserve 1<<20000', False),
         ('huge rep times (negative)', 'def m {\n;\n}\n;\nrep(0-(1<<20000), i) m', False), ('huge flip', '1<<20000;', False),
@@ -484,8 +492,13 @@ def gen_huge(rng, n, mem_mb):
     ]
     out = []
     for i in range(n):
-        h, f, slow = frags[i % len(frags)]
+        fr = frags[i % len(frags)]
+        h, f, slow = fr[:3]
         c = case('huge', f + '\n', h, slow=slow)
+        if h.startswith(('many ', 'one long line', 'rep 100000')):
+            c['nomodel'] = True         # fine for the assembler, minutes for the vm_compute evaluation of the model
+        if len(fr) > 3:
+            c['w'] = fr[3]
         if slow:
             c['mem_mb'] = mem_mb
         out.append(c)
